@@ -314,3 +314,26 @@ def single_return_expr(f: FuncInfo) -> ast.expr:
     if len(rs) != 1:
         raise AnalysisError(f"{f.qual}: expected exactly one return with a value, found {len(rs)}")
     return rs[0].value  # type: ignore[return-value]
+
+
+# --------------------------------------------------------------------------- raise guards
+def raising_ifs(node: ast.AST) -> list[ast.If]:
+    """``if`` statements (elif included) whose body ends in ``raise`` on all paths."""
+    from .cfg import ends_in_raise
+
+    return [n for n in walk_ordered(node) if isinstance(n, ast.If) and ends_in_raise(n.body)]
+
+
+def first_store_stmt(node: ast.AST, target_text: str) -> Optional[ast.stmt]:
+    sts = stores(node, lambda t: dotted(t) == target_text)
+    return sts[0][0] if sts else None
+
+
+def stmt_calls(f, resolver, qualnames: set[str]) -> list[ast.Call]:
+    """Calls in ``f`` whose resolved callee is one of ``qualnames``."""
+    out = []
+    for cs in resolver.call_sites(f):
+        if isinstance(cs.node, ast.Call) and any(getattr(c, "qual", None) in qualnames for c in cs.callees):
+            out.append(cs.node)
+    out.sort(key=lambda c: (c.lineno, c.col_offset))
+    return out
